@@ -5,6 +5,8 @@ both sides); never imported or executed."""
 from itertools import combinations
 
 from y0.algorithm.identify.cg import (
+    has_same_confounders,
+    nodes_attain_same_value,
     World,
     _variable_sort_key,
     _get_directed_edges,
@@ -147,4 +149,23 @@ def merged(graph, node1, node2):
         ),
         node1,
         node2,
+    )
+
+
+# ---- Lemma 24, parents: the two nodes have the same confounders, and their differing parents -- paired up in base-name order -- ALL attain the same value
+def parents_match(graph, event, a, b) -> bool:
+    if not has_same_confounders(graph, a, b):
+        return False
+    parents_a = set(graph.directed.predecessors(a))
+    parents_b = set(graph.directed.predecessors(b))
+    remainder_a, remainder_b = parents_a - parents_b, parents_b - parents_a
+    if len(remainder_a) != len(remainder_b):
+        return False
+    return all(
+        nodes_attain_same_value(graph, event, parent_a, parent_b)
+        for parent_a, parent_b in zip(
+            sorted(remainder_a, key=lambda x: x.get_base()),
+            sorted(remainder_b, key=lambda x: x.get_base()),
+            strict=False,
+        )
     )
